@@ -4,8 +4,8 @@
   `Float` by the driver, are compared with `lumicks/pylake/force_calibration` on every run (rel 1e-9).
 
   Not theorems (explored by the harness oracle only): equipartition and positivity of the hydrodynamic spectrum near
-  a surface, the Stimson–Jeffery series (bounds, limit; finding F9 lives there), monotonicity of the salt-solution
-  viscosity/density, the `brentq` molarity→molality conversion.
+  a surface, the Stimson–Jeffery series (bounds, limit; finding F9 lives there — the 2-D coupling theorems take its
+  factor as given), monotonicity of the salt-solution viscosity/density, the `brentq` molarity→molality conversion.
 -/
 import Verif.Lemmas.C20
 
@@ -58,6 +58,22 @@ theorem g_diode_bounds (f fd a : ℝ) (h0 : 0 ≤ a) (h1 : a < 1) :
 
 example : (0.3:ℝ) ^ 2 < gDiode 5000 14000 0.3 ∧ gDiode (5000:ℝ) 14000 0.3 ≤ 1 :=
   g_diode_bounds _ _ _ (by norm_num) (by norm_num)
+
+/-- The filter with FIXED diode parameters (`calibrate_force(..., fixed_diode=…, fixed_alpha=…)`) is the published diode
+    filter at the fixed values, the remaining ones taken from the call — for every fixed value, `α = 0` included. -/
+theorem fixed_diode_is_g_diode (fixFd fixA : Option ℝ) (fd a f : ℝ) :
+    fixedDiode fixFd fixA (freePars fixFd fixA fd a) f = some (gDiode f (fixFd.getD fd) (fixA.getD a)) := by
+  cases fixFd <;> cases fixA <;> rfl
+
+/-- … so it obeys the bounds of the diode filter. -/
+theorem fixed_diode_bounds (fixFd fixA : Option ℝ) (fd a f : ℝ) (h0 : 0 ≤ fixA.getD a) (h1 : fixA.getD a < 1) :
+    ∃ g, fixedDiode fixFd fixA (freePars fixFd fixA fd a) f = some g ∧ (fixA.getD a) ^ 2 < g ∧ g ≤ 1 :=
+  ⟨_, fixed_diode_is_g_diode fixFd fixA fd a f, g_diode_bounds _ _ _ h0 h1⟩
+
+/-- the relaxation factor fixed at 0, the roll-off frequency free: a pure low-pass filter with values in `(0, 1]` -/
+example : ∃ g, fixedDiode (none : Option ℝ) (some 0) [14000] 5000 = some g ∧ 0 < g ∧ g ≤ 1 := by
+  have := fixed_diode_bounds none (some 0) 14000 0.3 5000 (by simp) (by simp)
+  simpa [freePars] using this
 
 /-- Aliasing: the left fold of `alias_spectrum` is the sum of the spectrum shifted by every multiple
     `i · f_s`, `−n ≤ i ≤ n` (independent specification: a `Finset` sum over the integer interval). -/
@@ -297,6 +313,65 @@ theorem goldman_tends_to_one (R : ℝ) (rot : Bool) : Tendsto (fun d => goldman 
     have e : goldmanRotP 0 = 1 := by unfold goldmanRotP; norm_num
     rw [e] at h
     exact h.congr (fun d => (goldman_rot_real R d).symm)
+
+/-! ## Bead–bead coupling in 2-D (`coupling_correction_2d`): the decomposition for a pair, and for arrays of pairs -/
+
+/-- The 2-D factor of a bead pair is `c_aligned cos² θ + c_perpendicular sin² θ` for a horizontal oscillation (and with
+    the weights exchanged for a vertical one), `θ` the angle of THIS pair's bead-bead axis. -/
+theorem coupling_2d_decomposition (dx dy ca cp : ℝ) (isY : Bool) (h : dx ≠ 0 ∨ dy ≠ 0) :
+    coupling2d dx dy ca cp isY =
+      if isY then ca * (dy ^ 2 / (dx ^ 2 + dy ^ 2)) + cp * (dx ^ 2 / (dx ^ 2 + dy ^ 2))
+      else ca * (dx ^ 2 / (dx ^ 2 + dy ^ 2)) + cp * (dy ^ 2 / (dx ^ 2 + dy ^ 2)) := by
+  cases isY
+  · simpa using coupling2d_real_x dx dy ca cp h
+  · simpa using coupling2d_real_y dx dy ca cp h
+
+example : coupling2d (3:ℝ) 4 0.8 0.9 false = 0.8 * (3 ^ 2 / (3 ^ 2 + 4 ^ 2)) + 0.9 * (4 ^ 2 / (3 ^ 2 + 4 ^ 2)) := by
+  simpa using coupling_2d_decomposition 3 4 0.8 0.9 false (Or.inl (by norm_num))
+
+/-- With both one-dimensional factors in `(0, 1)` the 2-D factor lies in `(0, 1)`. -/
+theorem coupling_2d_in_unit_interval (dx dy ca cp : ℝ) (isY : Bool) (h : dx ≠ 0 ∨ dy ≠ 0)
+    (ha : 0 < ca ∧ ca < 1) (hp : 0 < cp ∧ cp < 1) :
+    0 < coupling2d dx dy ca cp isY ∧ coupling2d dx dy ca cp isY < 1 := by
+  obtain ⟨hx0, hx1, hy⟩ := coupling_weights dx dy h
+  cases isY with
+  | false =>
+    rw [coupling2d_real_x _ _ _ _ h, hy]
+    exact convex_unit ca cp _ hx0 hx1 ha hp
+  | true =>
+    rw [coupling2d_real_y _ _ _ _ h, hy]
+    have := convex_unit cp ca _ hx0 hx1 hp ha
+    constructor <;> [linarith [this.1]; linarith [this.2]]
+
+example : 0 < coupling2d (3:ℝ) 4 0.8 0.9 true ∧ coupling2d (3:ℝ) 4 0.8 0.9 true < 1 :=
+  coupling_2d_in_unit_interval 3 4 0.8 0.9 true (Or.inl (by norm_num)) (by norm_num) (by norm_num)
+
+/-- The 2-D factor lies between the two one-dimensional factors: as both tend to one with separation, so does it. -/
+theorem coupling_2d_between_the_1d_factors (dx dy ca cp : ℝ) (isY : Bool) (h : dx ≠ 0 ∨ dy ≠ 0) :
+    min ca cp ≤ coupling2d dx dy ca cp isY ∧ coupling2d dx dy ca cp isY ≤ max ca cp := by
+  obtain ⟨hx0, hx1, hy⟩ := coupling_weights dx dy h
+  cases isY with
+  | false =>
+    rw [coupling2d_real_x _ _ _ _ h, hy]
+    exact convex_between ca cp _ hx0 hx1
+  | true =>
+    rw [coupling2d_real_y _ _ _ _ h, hy]
+    have := convex_between cp ca _ hx0 hx1
+    rw [min_comm, max_comm]
+    constructor <;> [linarith [this.1]; linarith [this.2]]
+
+example : min (0.8:ℝ) 0.9 ≤ coupling2d (3:ℝ) 4 0.8 0.9 false ∧ coupling2d (3:ℝ) 4 0.8 0.9 false ≤ max (0.8:ℝ) 0.9 :=
+  coupling_2d_between_the_1d_factors 3 4 0.8 0.9 false (Or.inl (by norm_num))
+
+/-- Array arguments: entry `i` of the answer is the factor of pair `i` evaluated alone — it does not depend on which
+    other pairs are passed in the same call. -/
+theorem coupling_2d_vectorised_is_pairwise (dxs dys cas cps : List ℝ) (isY : Bool) (i : Nat)
+    (h1 : i < dxs.length) (h2 : i < dys.length) (h3 : i < cas.length) (h4 : i < cps.length) :
+    (coupling2dList dxs dys cas cps isY)[i]? = some (coupling2d dxs[i] dys[i] cas[i] cps[i] isY) := by
+  simp [coupling2dList, h1, h2, h3, h4]
+
+example : (coupling2dList [(3:ℝ), 1] [4, 0] [0.8, 0.7] [0.9, 0.6] false)[1]? = some (coupling2d (1:ℝ) 0 0.7 0.6 false) :=
+  coupling_2d_vectorised_is_pairwise _ _ _ _ _ 1 (by simp) (by simp) (by simp) (by simp)
 
 /-! ## Viscosity of water (Huber et al. 2009) -/
 
